@@ -6,11 +6,11 @@ Everything here is a small, purely syntactic/flow utility over the engine (no im
 from __future__ import annotations
 
 import ast
-from collections.abc import Callable, Iterable
+from collections.abc import Iterable
 
-from ..cfg import CFG, cfg_of
+from ..cfg import CFG
 from ..core import Ctx
-from ..loader import AnalysisError, ClassInfo, FunctionInfo, Module, walk_scope
+from ..loader import AnalysisError, FunctionInfo, Module, walk_scope
 from ..resolve import last_attr
 from ..util import calls, txt
 
@@ -448,3 +448,23 @@ def call_sites_of(ctx: Ctx, target: FunctionInfo, relpaths: Iterable[str]) -> li
                     out.append((fi, c))
     out.sort(key=lambda t: (t[0].fq, t[1].lineno))
     return out
+
+
+def clock_status(fi: FunctionInfo, e: ast.expr, depth: int = 4) -> str:
+    """'clock' = e reads the current time (``time.time()`` / ``time.monotonic()``, possibly wrapped or through
+    locals); 'unknown' = e involves some other call that might be a clock (cannot decide); 'const' = neither."""
+    status = "const"
+    for n in ast.walk(e):
+        if is_clock_call(n):
+            return "clock"
+        if isinstance(n, ast.Call) and not (isinstance(n.func, ast.Name) and n.func.id in ("int", "float", "max", "min", "round", "abs")):
+            status = "unknown"
+        if isinstance(n, ast.Name) and depth > 0 and n.id not in params_of(fi):
+            for val in binding_values(fi, n.id):
+                if val is not e:
+                    st = clock_status(fi, val, depth - 1)
+                    if st == "clock":
+                        return "clock"
+                    if st == "unknown":
+                        status = "unknown"
+    return status
